@@ -249,6 +249,19 @@ func serialOf(s int) *big.Int {
 	return nil
 }
 
+// ipLayout re-expresses an IPv4 network in the other layout net.IPNet commonly takes: odd modes = 16-byte
+// (IPv4-in-IPv6) address with a 4-byte mask, what net.IPv4(a,b,c,d) or net.ParseIP together with net.CIDRMask /
+// net.IPv4Mask give. (A 4-byte address under a 16-byte mask is not offered: as in crypto/x509 the encoder appends the
+// mask as given and produces a 20-byte constraint that no parser accepts.) IPv6 networks and even modes are returned
+// as they are.
+func ipLayout(n *net.IPNet, mode int) *net.IPNet {
+	ip4 := n.IP.To4()
+	if ip4 == nil || len(n.Mask) != 4 || mode%2 == 0 {
+		return n
+	}
+	return &net.IPNet{IP: append(net.IP{}, n.IP.To16()...), Mask: append(net.IPMask{}, n.Mask...)}
+}
+
 func mustCIDR(s string) *net.IPNet {
 	_, n, err := net.ParseCIDR(s)
 	if err != nil {
@@ -291,8 +304,8 @@ func buildCertTemplate(a certAxes, tag string) *x509.Certificate {
 		tpl.PermittedDNSDomainsCritical = true
 		tpl.PermittedDNSDomains = []string{".example.com", "example.org"}
 		tpl.ExcludedDNSDomains = []string{"bad.example.com"}
-		tpl.PermittedIPRanges = []*net.IPNet{mustCIDR("192.0.2.0/24")}
-		tpl.ExcludedIPRanges = []*net.IPNet{mustCIDR("2001:db8:1::/48")}
+		tpl.PermittedIPRanges = []*net.IPNet{ipLayout(mustCIDR("192.0.2.0/24"), 1), mustCIDR("198.51.100.0/25")}
+		tpl.ExcludedIPRanges = []*net.IPNet{mustCIDR("2001:db8:1::/48"), ipLayout(mustCIDR("10.0.0.0/8"), 2), ipLayout(mustCIDR("172.16.0.0/12"), 1)}
 		tpl.PermittedEmailAddresses = []string{"example.com"}
 		tpl.ExcludedEmailAddresses = []string{"root@example.com"}
 		tpl.PermittedURIDomains = []string{".example.com"}
